@@ -1045,8 +1045,8 @@ mod real {
     }
 
     /// mt_real <type> <workers> <input> <drop> <repeat>
-    /// runs the scenario `repeat` times on std threads; wall-clock guard 90 s per run; thread census
-    /// of the process before and (polling up to 20 s) after the last drop
+    /// runs the scenario `repeat` times on std threads; wall-clock guard 600 s per run; thread census
+    /// of the process before and (polling up to 120 s) after the last drop
     pub fn exec_real(a: &[&str]) -> (String, String) {
         let (kind, workers, input, dropa) = (a[1].to_string(), a[2].parse::<u32>().unwrap(), a[3].to_string(), a[4].to_string());
         let repeat: usize = a[5].parse().unwrap();
@@ -1071,7 +1071,7 @@ mod real {
                     Ok(r) => break Some(r),
                     Err(_) => {
                         max_threads = max_threads.max(tasks());
-                        if t0.elapsed() > Duration::from_secs(90) {
+                        if t0.elapsed() > Duration::from_secs(600) {
                             break None;
                         }
                     }
@@ -1086,15 +1086,17 @@ mod real {
                 }
                 None => {
                     *outcomes.entry("HANG".to_string()).or_insert(0) += 1;
-                    verdict = "FAIL a call did not return within 90 s".into();
+                    verdict = "FAIL a call did not return within 600 s".into();
                     break;
                 }
             }
         }
         // released workers need to be scheduled to exit: wait up to 20 s (loaded machine) for the
         // census to come back to where it started
+        // (a leaked worker sleeps on a condition variable for ever, so waiting long costs nothing on the
+        // unchanged tree and keeps the verdict independent of how loaded the machine is)
         let mut after = tasks();
-        for _ in 0..200 {
+        for _ in 0..1200 {
             if after <= before {
                 break;
             }
@@ -1102,7 +1104,18 @@ mod real {
             after = tasks();
         }
         if verdict == "ok" && after > before {
-            verdict = format!("FAIL {} thread(s) still alive 20 s after the last drop", after - before);
+            // name and scheduler state of every thread of the process, for the replay file
+            let mut st = Vec::new();
+            if let Ok(dir) = std::fs::read_dir("/proc/self/task") {
+                for e in dir.flatten() {
+                    let stat = std::fs::read_to_string(e.path().join("stat")).unwrap_or_default();
+                    let f: Vec<&str> = stat.split_whitespace().collect();
+                    if f.len() > 2 {
+                        st.push(format!("{}{}", f[1], f[2]));
+                    }
+                }
+            }
+            verdict = format!("FAIL {} thread(s) still alive 120 s after the last drop [{}]", after - before, st.join(" "));
         }
         // threads of this process while running: harness pool (16) + runner + workers
         let o = outcomes.iter().map(|(k, v)| format!("{}x{}", k, v)).collect::<Vec<_>>().join(",");
